@@ -16,6 +16,7 @@ from raysect.core.workflow import SerialEngine
 from raysect.optical import World
 from raysect.optical.material import UniformVolumeEmitter, AbsorbingSurface
 from raysect.optical.library.spectra.colours import red
+from raysect.optical.spectralfunction import ConstantSF
 from raysect.optical.observer import (SightLine, FibreOptic, Pixel, TargettedPixel, PowerPipeline0D, RadiancePipeline0D,
                                       SpectralPowerPipeline0D, SpectralRadiancePipeline0D)
 from raysect.primitive import Sphere, Box
@@ -311,6 +312,9 @@ class GroupMachine(Machine):
                      Sphere(0.05, parent=c.world, transform=translate(0.5, 0, 1), material=AbsorbingSurface())]
         c.slits = []
         if c.is_cam:
+            # a weak background glow around everything: every foil measures its own non-zero power, so a permuted list of
+            # measurements is visible
+            c.glow = Sphere(30.0, parent=c.world, material=UniformVolumeEmitter(ConstantSF(1.0), 0.01))
             c.slits = [BolometerSlit("slit%d" % k, Point3D(0.0, 0, -0.9 + 0.01 * k), Vector3D(1, 0, 0), 0.005, Vector3D(0, 1, 0), 0.005,
                                      parent=c.world) for k in range(2)]
         c.irvb = set(cfg.get("irvb", []))
@@ -870,6 +874,16 @@ class GroupMachine(Machine):
             raise Violation("observe", c.gname, "group.observe() raised %s: %s" % (type(e).__name__, e))
         if c.is_cam and (res is None or len(res) != len(c.members)):
             raise Violation("observe", c.gname, "camera.observe() returned %r for %d members" % (res, len(c.members)))
+        if c.is_cam:
+            # round 8: the k-th returned measurement is the one the k-th member's own pipeline holds (member order)
+            vals = []
+            for k, i in enumerate(c.members):
+                want = pipes[i].frame.mean if i in c.irvb else pipes[i].value.mean
+                vals.append(repr(np.asarray(want).tolist()))
+                if not (res[k] is want or np.array_equal(np.asarray(res[k]), np.asarray(want))):
+                    raise Violation("observe-order", c.gname, "camera.observe()[%d] = %r is not the measurement of member %d (%r)" % (k, res[k], k, want))
+            if len(set(vals)) == len(vals) and len(vals) > 1:
+                env.probe("camera_observe_all_values_distinct")
         for i, p in pipes.items():
             if p.inits != 1 or p.finals != 1:
                 raise Violation("observe", c.gname, "member %d was observed %d times (finalised %d) by one group.observe()" % (i, p.inits, p.finals))
